@@ -132,7 +132,7 @@ partial def decSchema : Sexp → Option Schema
   | .list [.atom "listT", t, a, b, c] => do some (.listT (← decSchema t) (← decLenP a b c))
   | .list [.atom "listE", lead, trail, .list es, a, b, c] => do
       some (.listE (← decBool lead) (← es.mapM decSchema) (← decBool trail) (← decLenP a b c))
-  | .list [.atom "dict", .atom "_"] => some (.dict none none)
+  | .list [.atom "dict", .atom "nil"] => some (.dict none none)
   | .list (.atom "dict" :: ell :: fs) => do
       let fs' ← fs.mapM (fun f => match f with
         | .list [k, o, s] => do some ((← decKey k), (← decBool o), (← decSchema s))
@@ -233,7 +233,7 @@ partial def encSchema : Schema → Sexp
   | .listU L => .list (.atom "listU" :: encLenP L)
   | .listT t L => .list (.atom "listT" :: encSchema t :: encLenP L)
   | .listE lead es trail L => .list ([.atom "listE", encBool lead, encBool trail, .list (es.map encSchema)] ++ encLenP L)
-  | .dict none _ => .list [.atom "dict", .atom "_"]
+  | .dict none _ => .list [.atom "dict", .atom "nil"]
   | .dict (some fs) ell => .list (.atom "dict" :: encOpt encNat ell ::
       fs.map (fun f => .list [encKey f.1, encBool f.2.1, encSchema f.2.2]))
   | .any none => .list [.atom "any", .atom "_"]
